@@ -282,9 +282,25 @@ def check_config(case):
             P.close("all")
         fmt = case.get("fmt", "png")
         through = case.get("write", False)
-        tmp = tempfile.mkdtemp(prefix="vmc_c19_") if through else None
+        bare = through and case.get("bare")
+        base_dir = None
+        if bare:
+            # a bare file name, with the working directory on another file system than the system temp directory (if there is one)
+            for cand in ("/dev/shm", os.path.expanduser("~"), "/var/tmp"):
+                try:
+                    if os.path.isdir(cand) and os.access(cand, os.W_OK) and os.stat(cand).st_dev != os.stat(tempfile.gettempdir()).st_dev:
+                        base_dir = cand
+                        break
+                except OSError:
+                    pass
+        tmp = tempfile.mkdtemp(prefix="vmc_c19_", dir=base_dir) if through else None
+        old_cwd = os.getcwd()
         try:
-            fn = os.path.join(tmp, "fig." + fmt) if through else "/nonexistent/vmc_c19." + fmt
+            if bare:
+                os.chdir(tmp)
+                if case.get("existing"):
+                    open("fig." + fmt, "w").write("older file")
+            fn = ("fig." + fmt if bare else os.path.join(tmp, "fig." + fmt)) if through else "/nonexistent/vmc_c19." + fmt
             calls += 1
             with SaveSpy(through) as spy:
                 try:
@@ -298,6 +314,7 @@ def check_config(case):
                 if through and not (os.path.exists(fn) and os.path.getsize(fn) > 0):
                     v("file-not-written:" + ep, "%s save wrote no file" % ep)
         finally:
+            os.chdir(old_cwd)
             if tmp:
                 shutil.rmtree(tmp, True)
             P.close("all")
@@ -719,6 +736,12 @@ def run(tier, seed, t0):
     for ep in eps:
         for fmt in ("png", "pdf", "svg", "ps"):
             cases.append({"kind": "save-then-plot", "ep": ep, "fmt": fmt})
+    # saves to a bare file name in the working directory (on another file system than the temp directory where one exists),
+    # with and without an older file of that name in place
+    for ep in eps:
+        for fmt, existing in (("png", False), ("pdf", True)):
+            cases.append({"kind": "config", "ep": ep, "cfg": dict(dflt, label=None if "multiple" in ep else ""), "fmt": fmt, "write": True,
+                          "bare": True, "existing": existing})
     lin_seqs = ["KEGKE", "KKEEGGSSPP", "GKRDESTYPAG", ("KEGGSR" * 40)[:221]] + (["KEKEKEGGGGPPPPKKKKEEEE", ("RGGSSE" * 60)[:300]] if tier == "thorough" else [])
     for s in lin_seqs:
         for w in ((1, 2, 5) if tier == "quick" else range(1, min(len(s), 8) + 1)):
@@ -739,7 +762,7 @@ def run(tier, seed, t0):
              "single / multiple / multiple2) x the full product label{'', 'x', long} x title{default,custom} x legend x xLim{1,.5} x "
              "yLim{1,.5} x font{10,6} (96 configurations) on three sequences: markers at the true coordinates, requested title, axis "
              "labels, limits, point labels and font, a figure returned when getFig; every entry point x {png,pdf,svg} written to a "
-             "real temp file; five further pairs of axis limits (second decimals, above 1, unequal) on every entry point and the region polygons of five zoomed diagrams x every composition to 16/30; labelled multi-sequence plots of sequences whose markers share an x-coordinate; every entry point's save in {png,pdf,svg,ps} followed, with nothing closed by the caller, by three further plots (each returned figure closed by the caller, then the save repeated) and a linear profile of another sequence (each figure must show exactly its own markers / bars). (3) linear plots: show/save_linear{NCPR,FCR,Sigma,Hydropathy} x windows: N bars centred on 1..N with "
+             "real temp file (absolute path; also a bare name in a working directory on another file system where one exists, with and without an older file in place); five further pairs of axis limits (second decimals, above 1, unequal) on every entry point and the region polygons of five zoomed diagrams x every composition to 16/30; labelled multi-sequence plots of sequences whose markers share an x-coordinate; every entry point's save in {png,pdf,svg,ps} followed, with nothing closed by the caller, by three further plots (each returned figure closed by the caller, then the save repeated) and a linear profile of another sequence (each figure must show exactly its own markers / bars). (3) linear plots: show/save_linear{NCPR,FCR,Sigma,Hydropathy} x windows: N bars centred on 1..N with "
              "the heights of get_linear_*. save_* figures are inspected at the moment savefig is called. non-trivial = all but "
              "single-charge-type region cases" % (NK, NP, HN, len(ep_sel)),
         bounds={"region_K": NK, "entry_points": len(ep_sel), "configurations": len(cfgs), "linear_sequences": len(lin_seqs)},
